@@ -155,8 +155,11 @@ Section Msg.
                            (fun p => dec_ty T abort (t_auth_rsp T) p None false))
             (ret (rsp_obj v')) (fun area =>
           match is_param_enc (sess_attr_field T) (mask_encrypt T) area with
-          | Some e => if Bool.eqb e enc then rsp_finish rid (("authorizationArea", area) :: v')
-                      else internal_ IRspEncMismatch
+          | Some e =>
+              (if Bool.eqb e enc then ret tt
+               else let er := EEncMismatch (pchild pa "authorizationArea") enc e in
+                    if abort then fail er else emit (Wn er)) ;;;
+              rsp_finish rid (("authorizationArea", area) :: v')
           | None => internal_ IAuthNone
           end)
         else rsp_finish rid v')
